@@ -108,8 +108,8 @@ def pp_case(draw, tier):
         g = None
     where = draw(st.sampled_from(['first', 'second', 'both'])) if nf == 2 else 'first'
     return {'bits': bits, 'names': names, 'gmode': gmode, 'g': g, 'where': where, 'width': draw(st.sampled_from([0, 1, 10, 20, 40, 60, 80, 120, 200]) | st.integers(0, 200)),
-            'sep': draw(st.sampled_from([' ', ' ', '', '_', ' | ', '--', ',', '  '])), 'show_offset': draw(st.booleans()), 'lsb0': draw(st.sampled_from([False, False, False, True])),
-            'no_color': draw(st.booleans()), 'cls': draw(cls_st), 'colon': draw(st.booleans())}
+            'sep': draw(st.sampled_from([' ', ' ', ' ', '', '_', ' | ', '--', ',', '  ', '{', '}', '{}', ' {{ ', '{:}', '%s', '\\', '%', '\t'])), 'show_offset': draw(st.booleans()), 'lsb0': draw(st.sampled_from([False, False, False, True])),
+            'no_color': draw(st.sampled_from([False, False, False, True, True, 1, 'yes'])), 'cls': draw(cls_st), 'colon': draw(st.booleans())}
 
 
 def fmt_text(case):
